@@ -4,7 +4,7 @@ from __future__ import annotations
 from typing import Any, Dict, List
 
 from ..sim.gen import profile
-from .simprop import DRAIN, SimEngine, overlap_family, sweep_space
+from .simprop import DRAIN, SimEngine, close_overlap_family, overlap_family, sweep_space
 
 FIN = [1, 1, 2, 2, 3, 4, 0, None]
 
@@ -208,7 +208,9 @@ def _c08() -> SimEngine:
                 cases.append({"pools": case["pools"], "steps": case["steps"][:-3] + [pre, respawn, {"op": "tick", "k": 1}] + case["steps"][-3:]})
         if tier == "quick":
             cases = cases[::8]
-        return ("base scenario (+sibling map) x [cancel_group in the same tick] x gather_and_close at every tick 0..6", cases, len(cases))
+        cases = cases + close_overlap_family(thin=6 if tier == "quick" else 1, ops=("close",))
+        return ("base scenario (+sibling map) x [cancel_group in the same tick] x gather_and_close at every tick 0..6; plus the close-overlap "
+                "family (the call blocked on a slow callback while other workers fail / return in every order)", cases, len(cases))
 
     return SimEngine(
         "C08",
